@@ -107,6 +107,11 @@ func (sg *SimpleGlyph) parsePoints(src []byte, _ int) error {
 	}
 
 	numPoints := int(sg.EndPtsOfContours[len(sg.EndPtsOfContours)-1]) + 1
+	for _, end := range sg.EndPtsOfContours {
+		if int(end) >= numPoints {
+			return errors.New("invalid simple glyph data: end points of contours are not increasing")
+		}
+	}
 
 	const repeatFlag = 0x08
 
